@@ -28,6 +28,7 @@ Definition kstep (ph : phantom) (id : ident) (s : kstate) (op : rop) : kstate :=
     else s
   | Expire ph' id' => if key_is ph id ph' id' then None else s
   | Sweep => s
+  | ExpireAll => None
   end.
 Definition key_state (ops : list rop) (ph : phantom) (id : ident) : kstate := fold_left (kstep ph id) ops None.
 
@@ -37,7 +38,7 @@ Definition validated_live (ops : list rop) (ph : phantom) (id : ident) : Prop :=
 
 (* a necessary condition in words: some Validate of that key, with no Expire of it afterwards *)
 Definition validated_since (ops : list rop) (ph : phantom) (id : ident) : Prop :=
-  exists a r b, ops = a ++ Validate ph id r :: b /\ forall op, In op b -> op <> Expire ph id.
+  exists a r b, ops = a ++ Validate ph id r :: b /\ forall op, In op b -> op <> Expire ph id /\ op <> ExpireAll.
 
 (* what "a validated, unexpired registration of that phantom" means for a returned object r:
    r is the object stored under the key, it is validated, and it is an object that was handed to
